@@ -127,6 +127,11 @@ def run(repo, rep, tier):
     # the CR/CRLF rewrite is decided by the content type of THIS body
     L.borrow(repo, rep, "R03.5", "C07", c07._history_and_undoubling,
              ("write-history-free",))
+    # ... which, for a document that announces itself by a meta element, is
+    # what detect_encoding reads out of the matched groups (C17 owns it)
+    from . import c17
+    L.borrow(repo, rep, "R03.5", "C17", c17._meta_group_roles,
+             ("meta-group-roles",))
     L.state_rule(repo, rep)
 
 
@@ -579,6 +584,47 @@ def _fields(repo, rep):
                     and src(x.slice.upper) == lv + ".start()"
                     for x in ast.walk(n.value))
             for n in ast.walk(loops[0]))
+        if uses_start:
+            # ... in source order: the skipped text stands in front of the
+            # match, so it is put in front of the field the match starts
+            # with (the first group of the attribute pattern), and it begins
+            # where the previous match ended
+            import re as _re2
+            rc_ = repo.const("chameleon.parser", "match_single_attribute")
+            gi_ = _re2.compile(rc_.pattern, rc_.flags).groupindex
+            first = min(gi_, key=gi_.get)
+            okg = False
+            gdetail = "no store of the skipped text found"
+            for n in ast.walk(loops[0]):
+                if not (isinstance(n, ast.Assign) and isinstance(
+                        n.targets[0], ast.Subscript)):
+                    continue
+                v = n.value
+                gaps = [x for x in ast.walk(v) if isinstance(
+                    x, ast.Subscript) and isinstance(x.slice, ast.Slice)
+                    and x.slice.upper is not None
+                    and src(x.slice.upper) == lv + ".start()"]
+                if not gaps:
+                    continue
+                fld = n.targets[0].slice
+                lo = gaps[0].slice.lower
+                lo_ok = lo is not None and any(
+                    isinstance(a_, ast.Assign) and
+                    src(a_.targets[0]) == src(lo) and
+                    src(a_.value) == lv + ".end()"
+                    for a_ in ast.walk(loops[0]))
+                okg = isinstance(v, ast.BinOp) and isinstance(
+                    v.op, ast.Add) and v.left is gaps[0] and \
+                    src(v.right) == src(n.targets[0]) and isinstance(
+                        fld, ast.Constant) and fld.value == first and lo_ok
+                gdetail = "%s (first field of a match: %r; gap starts at "\
+                          "the previous match's end: %s)" % (
+                              src(n)[:90], first, lo_ok)
+            rep.check(okg, "R03.3", mt.qualname, "the text between two "
+                      "attribute matches is kept where it stands: in front "
+                      "of the first field of the following match, from the "
+                      "end of the previous one", construct="gap-in-front",
+                      where=L.where(mt), detail=gdetail)
         agrees, adetail = unquoted_class_agrees(repo)
         rep.check(uses_start or agrees, "R03.3", mt.qualname,
                   "no text of a tag is skipped by the finditer scan: either "
